@@ -85,21 +85,26 @@ Lemma render_batch_sum : forall descs root data d o f data' live o',
   (forall x, In x (f_incr (fr_sum f)) -> x = dd_id d) /\
   f_hasnext (fr_sum f) = negb (o' =? 0)%Z /\
   o' = (o + Z.of_nat (length live) - 1)%Z /\
-  live = live_children descs (dd_id d) data'.
+  (live = live_children descs (dd_id d) data' \/ live = []) /\
+  (* a frame that delivers nothing because the defer failed announces no children *)
+  (jget k_incremental (fr_json f) = None -> live = []).
 Proof.
   intros descs root data d o f data' live o'. unfold render_batch.
   destruct (dwalk descs (Some d) root data [] [] false false (wst0 [])) as [[[data1 s1] rv1] st1].
   destruct (ws_null st1).
   - intros H. inversion H; subst; clear H. simpl. repeat split; auto. intros x [].
   - destruct (dwalk descs (Some d) root data1 [] [] true false (wst0 (ws_errs st1))) as [[[d2 s2] rv2] st2].
-    intros H. inversion H; subst; clear H. simpl. repeat split; auto.
-    intros x Hx. apply in_map_iff in Hx. destruct Hx as [y [Hy _]]. auto.
+    simpl. destruct (negb (nonempty (ws_items st2)) && nonempty (ws_errs st2)).
+    + intros H. inversion H; subst; clear H. simpl. repeat split; auto. intros x [].
+    + intros H. inversion H; subst; clear H. simpl. repeat split; auto.
+      * intros x Hx. apply in_map_iff in Hx. destruct Hx as [y [Hy _]]. auto.
+      * unfold k_incremental. simpl. intros Hc. discriminate.
 Qed.
 
 Lemma render_initial_sum : forall descs root data f data' live,
   render_initial descs root data = (f, data', live) ->
   f_pending (fr_sum f) = map dd_id live /\ f_completed (fr_sum f) = [] /\ f_incr (fr_sum f) = [] /\
-  f_hasnext (fr_sum f) = nonempty live /\ live = live_children descs 0 data'.
+  f_hasnext (fr_sum f) = nonempty live /\ (live = live_children descs 0 data' \/ live = []).
 Proof.
   intros descs root data f data' live. unfold render_initial.
   destruct (dwalk descs None root data [] [] false false (wst0 [])) as [[[data1 s1] rv1] st1].
